@@ -157,6 +157,18 @@ def draw_text(rng):
         text = rng.choice(['\ufeff', '\ufeff', '\u00ff\u00fe', '\u00fe\u00ff',
                            '\u00ef\u00bb\u00bf', '\x00', '+/v8 ',
                            '\u00ff\u00fe\x00\x00']) + text
+    if rng.random() < 0.06:
+        # a non-ASCII character as the very last / very first thing of the
+        # text: in a single-byte encoding its byte is a UTF-8 lead byte with
+        # nothing after it (an *incomplete*, not an invalid sequence), or a
+        # continuation byte with nothing before it
+        ch = rng.choice(['\u00e9', '\u00c2', '\u00df', '\u00f4', '\u00c3',
+                         '\u00e0\u00e9', '\u00f0', '\u00a9', '\u00bf'])
+        if rng.random() < 0.75:
+            text = text.rstrip('\n') + rng.choice(
+                [' -- caf', " '", ' ', ' as caf', ' /* ', ';']) + ch
+        else:
+            text = ch + rng.choice([' ', '', '\n', ';']) + text
     if rng.random() < 0.3 and text.endswith('\n'):
         text = text.rstrip('\n')       # missing trailing newline
     return text.replace('\r', '')     # CR is added deliberately in gen()
